@@ -28,7 +28,7 @@ func set(_ context.Context, v rel.Value) (rel.Value, error) {
 		}
 	} else {
 		// TODO: Mask reals using negative indices.
-		panic("unimplemented")
+		return nil, fmt.Errorf("//bits.set: argument not an integer: %v", v)
 	}
 	return b.Finish()
 }
